@@ -120,9 +120,15 @@ def _enter(qn):
     core.tick()
 
 
-def make_builtins():
+# names that keep their real builtin in a given module (dict subclasses used as class namespaces)
+NO_SHIM = {'http_server': ('dict',)}
+
+
+def make_builtins(modname=None):
     bi = dict(vars(builtins))
     bi.update(values.SHIM_BUILTINS)
+    for n in NO_SHIM.get(modname, ()):
+        bi[n] = getattr(builtins, n)
     bi['__import__'] = _import
     bi['print'] = lambda *a, **k: None
     return bi
@@ -199,7 +205,7 @@ def load(name):
     m.__package__ = 'sxm'
     MODS[name] = m
     g = m.__dict__
-    g['__builtins__'] = make_builtins()
+    g['__builtins__'] = make_builtins(name)
     g['__sx_mod__'] = values.sx_mod
     g['__sx_dict__'] = values.sx_dict_literal
     g['__sx_set__'] = values.sx_set_literal
